@@ -1,11 +1,190 @@
-//! C12 (to be filled in)
+//! C12 — progress updates are truthful, never exceed 100%, and the stream ends
+
 use super::*;
-pub fn run(_ctx: &Ctx) -> Report {
-    let mut r = Report::new("model_checking", "not implemented");
-    r.machinery_errors.push("C12 not implemented yet".into());
-    r
+use crate::explore::{explore, Judge};
+use crate::scen::{Content, Entry, Kind, Prog};
+use crate::sup::{Action, Fault};
+use std::sync::Arc;
+
+/// the xcp invocation equivalent to an apiprobe copy (for the reference tree)
+fn equivalent(scen: &Scenario) -> Scenario {
+    // apiprobe copy <driver> <workers> <bsize> <updater> <dest> <src>...
+    let a = &scen.args;
+    let mut args: Vec<String> = vec!["-r".into(), "--driver".into(), a[1].clone(), "--no-progress".into()];
+    args.extend(a[6..].iter().cloned());
+    args.push(a[5].clone());
+    let mut s = scen.clone();
+    s.prog = Prog::Xcp;
+    s.args = args;
+    s
 }
 
-pub fn api_jobs(_ctx: &Ctx, _termination_only: bool) -> Vec<(std::sync::Arc<Scenario>, RunSpec, usize)> {
-    vec![]
+pub fn judge(w: &Worker, scen: &Scenario, ex: &Exec) -> Judgement {
+    let mut v = vec![];
+    let out = String::from_utf8_lossy(&ex.res.stdout).to_string();
+    let mode = scen.args[4].as_str();
+    let exp = model::expect(&equivalent(scen));
+    if ex.res.outcome.is_hang() {
+        v.push(format!("the library client never finishes: {}", ex.res.outcome.short()));
+        return simple_judge(v, ex, true);
+    }
+    let returned = out.lines().find(|l| l.starts_with("COPY-RETURNED")).map(|l| l.to_string());
+    if returned.is_none() {
+        v.push("copy() did not return".into());
+    }
+    if mode == "chan" && !out.contains("CHANNEL-CLOSED") {
+        v.push("the update channel did not close".into());
+    }
+    let ret_ok = returned.as_deref() == Some("COPY-RETURNED ok");
+    let upds: Vec<&str> = out.lines().filter_map(|l| l.strip_prefix("UPD ")).collect();
+    let mut size_sum: u64 = 0;
+    let mut copied_sum: u64 = 0;
+    let mut saw_error = false;
+    for u in &upds {
+        if let Some(n) = u.strip_prefix('S') {
+            size_sum += n.parse::<u64>().unwrap_or(0);
+        } else if let Some(n) = u.strip_prefix('C') {
+            copied_sum += n.parse::<u64>().unwrap_or(0);
+            if copied_sum > size_sum {
+                v.push(format!("after update {:?} the client has been told {} bytes copied but only {} announced (more than 100%)", u, copied_sum, size_sum));
+                break;
+            }
+        } else if u.starts_with('E') {
+            saw_error = true;
+        }
+    }
+    // against the bytes really moved so far (trace order): markers are emitted at delivery time
+    let mut moved: u64 = 0;
+    let mut told: u64 = 0;
+    for e in &ex.res.events {
+        if e.is_data_move() && e.ret > 0 {
+            if let Some((_, rel)) = e.write_target() {
+                if rel.starts_with("dst") {
+                    moved += e.ret as u64;
+                }
+            }
+        }
+        if e.name == "ioctl:FICLONE" && e.ret == 0 {
+            // a successful clone transfers the whole file at once
+            if let Some(src) = &e.rel {
+                if let Some(en) = scen.tree.iter().find(|t| &t.path == src).and_then(|t| t.content()) {
+                    moved += en.len();
+                }
+            }
+        }
+        if e.name == "MARK" {
+            if let Some(p) = &e.path {
+                let tag = p.strip_prefix("upd/C").or_else(|| p.strip_prefix("rcv/C"));
+                if let Some(n) = tag {
+                    told += n.parse::<u64>().unwrap_or(0);
+                    if told > moved {
+                        v.push(format!("update Copied({}) delivered when only {} bytes had been transferred (told {} so far)", n, moved, told));
+                        break;
+                    }
+                }
+            }
+        }
+    }
+    if copied_sum > moved {
+        v.push(format!("updates report {} bytes copied in total, {} were transferred", copied_sum, moved));
+    }
+    let faulted = !ex.res.hit_sites.is_empty();
+    if ret_ok && !saw_error && mode != "noop" {
+        if size_sum != exp.total_len {
+            v.push(format!("announced sizes sum to {} but the selected regular files total {}", size_sum, exp.total_len));
+        }
+    }
+    // an incomplete destination must have been signalled
+    if returned.is_some() {
+        let root = w.root(scen.fs);
+        let diffs = model::compare(&exp, &ex.snap, &root, Level::Content, run_start_secs());
+        if !diffs.is_empty() && ret_ok && !saw_error && mode != "noop" {
+            v.push(format!("destination incomplete ({}) but no Error update was delivered and copy() returned Ok", diffs[0]));
+        }
+        // With the NoopUpdater an Error update handed to the updater is discarded by construction and cannot
+        // be observed from outside; the property is satisfied by the hand-over, so nothing is demanded there.
+        if diffs.is_empty() && !faulted && !ret_ok {
+            v.push(format!("valid copy but {}", returned.clone().unwrap_or_default()));
+        }
+    }
+    v.truncate(6);
+    let mut j = simple_judge(v, ex, upds.len() > 1 || mode == "noop");
+    j.outcome_key = format!("{} upd={}", ex.res.outcome.short(), upds.join(","));
+    j
+}
+
+fn trees(b: u64) -> Vec<(String, Vec<Entry>, u64)> {
+    let bb = if b > 64 { 4 } else { b };
+    vec![
+        ("three".into(), vec![Entry::dir("src"), Entry::file("src/z", ""), Entry::gen("src/o", 1, 1), Entry::gen("src/p", bb + 1, 2)], 0),
+        ("two".into(), vec![Entry::dir("src"), Entry::gen("src/t", 3 * bb, 3), Entry::gen("src/p", bb + 1, 2)], 0),
+        ("sparse".into(), vec![Entry::dir("src"), Entry::new("src/s", Kind::File(Content::Layout { unit: 4096, units: vec![true, false, true], tail: 0, seed: 4 })), Entry::gen("src/o", 1, 1)], 0),
+    ]
+}
+
+pub fn api_jobs(ctx: &Ctx, termination_only: bool) -> Vec<(Arc<Scenario>, RunSpec, usize)> {
+    let q = ctx.quick();
+    let mut out = vec![];
+    let d_sched = if termination_only { 1 } else if q { 1 } else { 2 };
+    for d in drivers() {
+        for (bn, b) in [("1", 1u64), ("4", 4), ("max", u64::MAX)] {
+            for w in if q { vec!["2"] } else { vec!["1", "2"] } {
+                for upd in ["chan", "rec", "noop"] {
+                    for (tn, tree, _) in trees(b) {
+                        if tn == "sparse" && bn == "1" {
+                            continue; // 8192 one-byte blocks: nothing new, only slow
+                        }
+                        if termination_only && (tn != "two" || bn == "1") {
+                            continue;
+                        }
+                        let mut s = Scenario::new(&format!("api-{}-{}-B{}-w{}-{}", tn, d, bn, w, upd), tree, &["copy", d, w, bn, upd, "dst", "src"]);
+                        s.prog = Prog::ApiProbe;
+                        let s = Arc::new(s);
+                        for base in base_specs() {
+                            let deep = if tn == "sparse" || bn == "1" { 0 } else { d_sched };
+                            out.push((s.clone(), base.clone(), deep));
+                            if tn == "two" && bn != "1" {
+                                // faults: the last clause (incomplete destination => Error update or Err), and termination
+                                for nth in 1..=3 {
+                                    let mut sp = base.clone();
+                                    sp.faults.push(Fault { call: "copy_file_range".into(), thread: None, nth: Some(nth), path_contains: None, action: Action::Errno(libc::EIO) });
+                                    out.push((s.clone(), sp, if q { 0 } else { 1 }));
+                                }
+                                for nth in 1..=2 {
+                                    let mut sp = base.clone();
+                                    sp.faults.push(Fault { call: "openat".into(), thread: None, nth: Some(nth), path_contains: Some("dst/".into()), action: Action::Errno(libc::EACCES) });
+                                    out.push((s.clone(), sp, if q { 0 } else { 1 }));
+                                }
+                                let mut sp = base.clone();
+                                sp.faults.push(Fault { call: "ioctl:FICLONE".into(), thread: None, nth: None, path_contains: None, action: Action::EmulateOk });
+                                out.push((s.clone(), sp, 0));
+                                let mut sp = base.clone();
+                                sp.faults.push(Fault { call: "mkdir".into(), thread: None, nth: Some(1), path_contains: None, action: Action::Errno(libc::EACCES) });
+                                out.push((s.clone(), sp, 0));
+                            }
+                        }
+                    }
+                }
+            }
+        }
+    }
+    out
+}
+
+pub fn run(ctx: &Ctx) -> Report {
+    let mut rep = Report::new(
+        "model_checking",
+        "apiprobe (a library client linked against /repo/libxcp) explored under xsup like the CLI: trees of 2-3 files with sizes {0,1,B+1,3B} and a sparse file x block sizes {1,4,u64::MAX} x both drivers x workers x updater {ChannelUpdater drained by the client, client-supplied recording updater, NoopUpdater}; all executions with <= d scheduling deviations (hook markers give pre-emption points between the walker's Size update and its queue send, inside ChannelUpdater::send and before each Copied update); single injected failures and emulated clone success; oracle on the delivered sequence: sizes sum to the total length, in every prefix copied <= announced, at each delivery copied <= bytes the trace shows as transferred so far, the channel closes and copy() returns, an incomplete destination implies an Error update or Err; non-trivial = more than one update delivered, per distinct trace",
+    );
+    if ctx.pool.bins.apiprobe.is_empty() {
+        rep.machinery_errors.push("apiprobe not built".into());
+        return rep;
+    }
+    let j: Judge = &judge;
+    let jobs = api_jobs(ctx, false);
+    let n = jobs.len();
+    let st = explore(&ctx.pool, jobs, j);
+    rep.part("library client under schedule search and single faults", st, serde_json::json!({"base_jobs": n}));
+    rep.assumptions = vec!["updates are ordered against data-moving calls through marker calls emitted by the client at delivery time (the trace is a total order)".into()];
+    rep
 }
